@@ -1,7 +1,7 @@
 from abc import ABC, abstractmethod
 from numbers import Integral
 
-from sklearn.utils.validation import check_is_fitted
+from sklearn.exceptions import NotFittedError
 
 
 class InvertibleBasis(ABC):
@@ -51,7 +51,13 @@ class MatrixMixin:
         """
         Ensure ``n_basis_modes`` does not exceed the maximum number possible.
         """
-        check_is_fitted(self, "basis_matrix_")
+        # Not every basis is a scikit-learn estimator (Custom is not), so
+        # sklearn's check_is_fitted cannot be used here.
+        if not hasattr(self, "basis_matrix_"):
+            raise NotFittedError(
+                f"This {type(self).__name__} instance is not fitted yet. "
+                "Call 'fit' with appropriate arguments before using this basis."
+            )
 
         if n_basis_modes is None:
             n_basis_modes = self.n_basis_modes
